@@ -13,7 +13,7 @@ ToSet(s) == {s[i] : i \in DOMAIN s}
 
 TInit == /\ l = 1
          /\ objs = <<>>
-         /\ res = Res("init", TRUE, "", {}) /\ last = Op("init", "", <<>>, "", <<>>) /\ hist = <<>>
+         /\ res = Res("init", TRUE, "", {}) /\ last = Op("init", "", <<>>, "", <<>>, "") /\ hist = <<>>
 
 TNext == /\ l <= Len(Trace)
          /\ l' = l + 1
@@ -48,7 +48,8 @@ Explained == l <= Len(Trace) => ExplainedRec(Trace[l])
 (* the recorder only produces operations inside the property's domain *)
 WellFormed == l <= Len(Trace) =>
     LET r == Trace[l] IN
-      (r.op \in {"write", "read"}) => (Ordinary(r.name) /\ Usable(r.b, r.name) /\ r.b \in DOMAIN objs)
+      /\ (r.op \in {"write", "read"}) => (Ordinary(r.name) /\ Usable(r.b, r.name) /\ r.b \in DOMAIN objs)
+      /\ r.op = "write" => (r.style \in WriteStyles /\ (r.style = "nowrite" => r.empty))
 
 Accepted == TLCGet("stats").diameter = Len(Trace) + 1
 =============================================================================
